@@ -261,8 +261,11 @@ func (s *JSchema) Compile() error {
 		if err := s.load(); err != nil {
 			return err
 		}
-		loader.CompileAllOf(s.Inner)
+		// The types which the registered types bring along are collected first: the
+		// "allOf" rules inside them have to be compiled (and their parents found or
+		// reported as missing) like the ones of the types registered on the schema itself.
 		loader.AddUnnamedTypes(s.Inner)
+		loader.CompileAllOf(s.Inner)
 		checker.CheckRootSchema(s.Inner)
 		return checker.CheckRecursion(s.File.Name(), s.Inner)
 	})
